@@ -256,6 +256,9 @@ SCENARIOS.append(("Self-in-closures-nested-in-static-methods", '#[constructor(ne
 # a method taken as a value and handed to a built-in that will call it (Fiber.new, map, filter, reduce, a fiber that receives it) is
 # either refused or called with the receiver it was taken from - for instance methods, super methods, static methods, constructors, natives
 SCENARIOS.append(("callables-handed-to-built-ins-keep-their-receiver", '#[constructor(new)] class A { fn who(self) { return "A:" + self.tag; } fn add(self, x) { return self.tag + String.from(x); } #[static] fn st(x) { return "st" + String.from(x); } }\n#[derive(A)] class B { #[constructor] fn new(self) { super.new(); } fn who(self) { return "B>" + super.who(); } fn sup(self) { return super.add; } }\nvar a = A.new(); a.tag = "a"; var b = B.new(); b.tag = "b";\nfn attempt(f) { try { print(f()); } catch e { print(type(e)); } }\nvar callables = [a.who, b.who, a.add, b.sup(), A.st, b.st, [1, 2].len, "xy".len];\nattempt(|| Fiber.new(a.who).call());\nattempt(|| Fiber.new(b.who).call());\nattempt(|| Fiber.new(a.add).call(1));\nattempt(|| Fiber.new(b.sup()).call(2));\nattempt(|| Fiber.new(A.st).call(3));\nattempt(|| Fiber.new([1, 2].len).call());\nattempt(|| Fiber.new(A.new).call());\nattempt(|| Fiber.new(|| a.who()).call());\nattempt(|| [1, 2].iter().map(a.add).collect());\nattempt(|| [1, 2].iter().map(b.sup()).collect());\nattempt(|| [1, 2].iter().map(A.st).collect());\nattempt(|| [1, 2].iter().filter(a.add).collect());\nattempt(|| [1, 2].iter().reduce(|acc, x| acc + a.add(x), ""));\nattempt(|| [[1], [2, 3]].iter().map([9].len).collect());\nvar held = Fiber.new(|f| { var r = f(7); Fiber.yield(r); return f(8); });\nattempt(|| held.call(b.sup()));\nattempt(|| held.call());\n', ['<class TypeError>', '<class TypeError>', '<class TypeError>', '<class TypeError>', '<class TypeError>', '<class TypeError>', '<class TypeError>', 'A:a', '[a1, a2]', '[b1, b2]', '[st1, st2]', '[1, 2]', 'a1a2', '<class TypeError>', 'b7', 'b8']))
+# fields first also for calls written `self.m(..)` inside a method of the class that declares `m` (directly, in a closure, through a
+# variable, through `super`), for instances of the class and of a subclass that overrides `m`
+SCENARIOS.append(("self-calls-see-fields-first", '#[constructor(new)] class G { fn hello(self, w) { return "hello " + w + " from method of g"; } fn greet(self, w) { return self.hello(w); } fn later(self, w) { return (|| self.hello(w))(); } fn viaVar(self, w) { var f = self.hello; return f(w); } }\n#[derive(G), constructor(new)] class L { fn hello(self, w) { return "HELLO " + w + " FROM OVERRIDE OF l"; } fn up(self, w) { return super.greet(w); } }\nvar g = G.new(); var l = L.new();\nprint(g.greet("a")); print(l.greet("a")); print(l.up("a"));\ng.hello = |w| "hi " + w + " from the field"; l.hello = |w| "hi " + w + " from the field of l";\nprint(g.greet("b")); print(g.later("b")); print(g.viaVar("b")); print(g.hello("b"));\nprint(l.greet("c")); print(l.up("c")); print(l.later("c")); print(l.viaVar("c"));\nvar g2 = G.new(); print(g2.greet("d"));\ng2.greet = |w| "field greet " + w; print(g2.greet("e")); print(G.new().greet("f"));\n', ['hello a from method of g', 'HELLO a FROM OVERRIDE OF l', 'HELLO a FROM OVERRIDE OF l', 'hi b from the field', 'hi b from the field', 'hi b from the field', 'hi b from the field', 'hi c from the field of l', 'hi c from the field of l', 'hi c from the field of l', 'hi c from the field of l', 'hello d from method of g', 'field greet e', 'hello f from method of g']))
 SCENARIOS.append(("implicit-protocol-calls-see-fields-first", '#[constructor(new)]\nclass Seq { fn iter(self) { return self; } fn next(self) { return StopIter.new(); } }\nvar src = [10, 20, 30].iter();\nvar a = Seq.new();\na.next = src.next;\nfor v in a { print(v); }\nvar b = Seq.new();\nvar n = 0;\nb.next = || { n = n + 1; if n > 2 { return StopIter.new(); } return n; };\nfor v in b { print(v); }\nprint(type(b.next()) == StopIter);\nvar c = Seq.new();\nc.iter = || [7, 8].iter();\nfor v in c { print(v); }\nfor v in Seq.new() { print("never"); }\n#[constructor(new)]\nclass Bare {}\nvar d = Bare.new();\nvar k = 0;\nd.iter = || d;\nd.next = || { k = k + 1; if k > 2 { return StopIter.new(); } return k * 100; };\nfor v in d { print(v); }\n#[constructor(new), derive(Seq)]\nclass Sub { fn next(self) { self.count = self.count + 1; if self.count > 1 { return StopIter.new(); } return "sub"; } }\nvar e = Sub.new();\ne.count = 0;\nfor v in e { print(v); }\nvar f = Sub.new();\nf.count = 0;\nf.next = a.next;\nfor v in f { print("f " + String.from(v)); }\nprint(f.count);\n',
                   ["10", "20", "30", "1", "2", "true", "7", "8", "100", "200", "sub", "0"]))
 
@@ -288,6 +291,16 @@ def correspondence(ctx, model_ok=True):
                                      "status": c[0], "signature": "model-vs-real class lookup", "failing_input": True})
         except Exception as e:
             broken.append("model driver cls: %s" % e)
+    # classes made on the fly, used through both call forms and dropped, in an asymmetric rhythm, with collections that really free (block
+    # addresses are re-used): each object answers with its own tag (the churn probes of C01)
+    import probes_gc
+    churn = [(n, probes_gc.CHURN + src, {}) for n, src in probes_gc.CHURN_PROBES if n.startswith("churn.class")]
+    cres, _ = progs.run_programs(ctx.runner, churn, {"gc": "always"}, tag="u")
+    for (name, src, _), r in zip(churn, cres):
+        c = progs.canon_step(r)
+        if c[0] != "ok" or list(c[2]) != ["0"]:
+            failures.append({"what": "classes created and dropped in a loop: a member access answered for another class (%s prints %s, expected ['0'])" % (name, str(c)[:200]),
+                             "program": src, "name": name, "signature": "class churn " + name, "failing_input": True})
     scen = [(n, s, {}) for n, s, _ in SCENARIOS]
     for mode in ({"gc": "default"}, {"gc": "always", "quarantine": 1}):
         sres, _ = progs.run_programs(ctx.runner, scen, mode, tag="s")
